@@ -13,26 +13,26 @@ def plans(tier):
     if tier == "quick":
         return [
             {"name": "bfs-1agent", "variant": "os", "mode": "thread",
-             "gen": dict(agents=(0,), maxch=2, maxreg=0, maxslots=1, maxops=3), "filter": nontrivial},
+             "gen": dict(failsends=True, agents=(0,), maxch=2, maxreg=0, maxslots=1, maxops=3), "filter": nontrivial},
             {"name": "bfs-2agents-process", "variant": "os", "mode": "process",
              "gen": dict(agents=(0, 1), maxch=1, maxreg=0, maxslots=1, maxops=3), "filter": nontrivial, "limit": 1500},
             {"name": "sim-process", "variant": "os", "mode": "process",
-             "gen": dict(agents=(0, 1), maxch=3, maxreg=1, maxslots=2, maxops=16, minops=8, maxqueue=3,
+             "gen": dict(failsends=True, agents=(0, 1), maxch=3, maxreg=1, maxslots=2, maxops=16, minops=8, maxqueue=3,
                          kinds=("typed", "bytes"), simulate=30, depth=100, tlcseed=chancheck.seed())},
         ]
     return [
         {"name": "bfs-1agent-d4", "variant": "os", "mode": "thread",
-         "gen": dict(agents=(0,), maxch=2, maxreg=0, maxslots=1, maxops=4), "filter": nontrivial},
+         "gen": dict(failsends=True, agents=(0,), maxch=2, maxreg=0, maxslots=1, maxops=4), "filter": nontrivial},
         {"name": "bfs-2agents-process-d4", "variant": "os", "mode": "process",
          "gen": dict(agents=(0, 1), maxch=1, maxreg=0, maxslots=1, maxops=4), "filter": nontrivial, "limit": 20000},
         {"name": "sim-process", "variant": "os", "mode": "process",
-         "gen": dict(agents=(0, 1), maxch=5, maxreg=1, maxslots=2, maxops=50, minops=20, maxqueue=4,
+         "gen": dict(failsends=True, agents=(0, 1), maxch=5, maxreg=1, maxslots=2, maxops=50, minops=20, maxqueue=4,
                      kinds=("typed", "bytes"), simulate=200, depth=300, tlcseed=chancheck.seed())},
         {"name": "sim-thread-sysbuf", "variant": "os", "mode": "thread", "sb": None,
-         "gen": dict(agents=(0, 1), maxch=4, maxreg=1, maxslots=2, maxops=30, minops=12, maxqueue=3,
+         "gen": dict(failsends=True, agents=(0, 1), maxch=4, maxreg=1, maxslots=2, maxops=30, minops=12, maxqueue=3,
                      kinds=("typed", "bytes"), simulate=40, depth=200, tlcseed=chancheck.seed() + 1)},
         {"name": "sim-inprocess", "variant": "inprocess", "mode": "thread",
-         "gen": dict(agents=(0, 1), maxch=4, maxreg=1, maxslots=2, maxops=30, minops=12, maxqueue=3,
+         "gen": dict(failsends=True, agents=(0, 1), maxch=4, maxreg=1, maxslots=2, maxops=30, minops=12, maxqueue=3,
                      kinds=("typed", "bytes"), simulate=40, depth=200, tlcseed=chancheck.seed() + 2)},
     ]
 
